@@ -631,4 +631,31 @@ theorem thermo_decode_eq (c : String) (ks : List String) (vs : List V) (fc : Str
           | error e => rfl
           | ok dd => simp [ensure_dict_eq _ hd, Except.map, Nat.add_assoc]
 
+/-! ### non-vacuity -/
+
+/-- two slots from index 5, the second one a hole -/
+example : (PyCode.EcomaxParametersStructure_decode (Py.mkobj "self" []) (.bytes [0, 5, 2, 1, 2, 3, 255, 255, 255, 9]) (.int 0) .none).map (·.1)
+    = .ok (.tuple [.dict ["ecomax_parameters"] [.list [.tuple [.int 5, tripleV (1, 2, 3)]]], .int 9]) := rfl
+/-- the header cut short -/
+example : (PyCode.EcomaxParametersStructure_decode (Py.mkobj "self" []) (.bytes [0, 5]) (.int 0) .none).map (·.1)
+    = .error .IndexError := rfl
+/-- two mixers with one slot each, the first mixer all holes: only mixer 1 is listed; `data` is extended -/
+example : (PyCode.MixerParametersStructure_decode (Py.mkobj "self" []) (.bytes [7, 0, 0, 1, 2, 255, 255, 255, 4, 5, 6]) (.int 1)
+      (.dict ["x"] [.int 1])).map (·.1)
+    = .ok (.tuple [.dict ["x", "mixer_parameters"] [.int 1, .map [.int 1] [.list [.tuple [.int 0, tripleV (4, 5, 6)]]]], .int 11]) := rfl
+/-- no owning device -/
+example : (PyCode.ThermostatParametersStructure_decode (Py.mkobj "self" [("frame", Py.mkobj "F" [("handler", .none)])])
+      (.bytes [0, 0, 2, 1, 2, 3, 4, 5, 6]) (.int 0) .none).map (·.1) = .error .UnboundLocalError := rfl
+/-- a device without thermostats -/
+example : (PyCode.ThermostatParametersStructure_decode (Py.mkobj "self" [("frame", Py.mkobj "F" [("handler", .dict [] [])])])
+      (.bytes [0, 0, 2, 1, 2, 3]) (.int 0) .none).map (·.1)
+    = .ok (.tuple [.dict ["thermostat_parameters"] [.none], .int 0]) := rfl
+/-- one thermostat, indexes 0 and 1 (widths 1 and 2) after the profile triple -/
+example : (PyCode.ThermostatParametersStructure_decode
+      (Py.mkobj "self" [("frame", Py.mkobj "F" [("handler", .dict ["thermostats_available"] [.int 1])])])
+      (.bytes [0, 0, 2, 1, 0, 5, 7, 0, 9, 1, 1, 2, 0, 3, 1]) (.int 0) .none).map (·.1)
+    = .ok (.tuple [.dict ["thermostat_profile", "thermostat_parameters"]
+        [tripleV (1, 0, 5), .map [.int 0] [.list [.tuple [.int 0, tripleV (7, 0, 9)], .tuple [.int 1, tripleV (257, 2, 259)]]]],
+        .int 15]) := rfl
+
 end PlumVerif.TieStructParams
